@@ -569,12 +569,26 @@ func sideColumnTypeAssigned(c *Ctx) (bool, string) {
 		if as, ok := n.(*ast.AssignStmt); ok && strings.HasSuffix(exprKey(as.Lhs[0]), ".DataType") {
 			return Cut
 		}
+		// the element built as a literal that names its DataType
+		lit := false
+		ast.Inspect(n, func(y ast.Node) bool {
+			if cl, ok := y.(*ast.CompositeLit); ok && kvField(cl, "DataType") != nil {
+				lit = true
+			}
+			return true
+		})
+		if lit {
+			return Cut
+		}
 		if at == al {
 			return Hit
 		}
 		return Go
 	}, nil)
 	if unassigned {
+		if hs := writtenOutHelpers(f); len(hs) > 0 || c.W.opaque(f) != "" {
+			return false, "UNDECIDED: Parser.TableElements was restructured around helpers the rules have never seen — whether every appended element has its column type is not decided"
+		}
 		return false, "a table element can be appended without a column type"
 	}
 	return true, ""
